@@ -80,6 +80,48 @@ func analysePrinter(p *core.Prog, fn *ssa.Function) *printerInfo {
 			}
 		}
 	})
+	// the printer may delegate to a shared helper of the package (`return stateFileName(r, "kv")`): the helper's Sprintf
+	// is read, its extension verb standing for the constant passed at this call
+	extArg := ""
+	outer := fn
+	if call == nil {
+		core.Instrs(outer, func(in ssa.Instruction) {
+			hc, ok := in.(*ssa.Call)
+			if !ok || call != nil {
+				return
+			}
+			h := core.StaticFn(hc.Common())
+			if h == nil || h.Blocks == nil || h.Pkg != outer.Pkg || h.Parent() != nil {
+				return
+			}
+			var hcall *ssa.Call
+			core.Instrs(h, func(x ssa.Instruction) {
+				if c, ok := x.(*ssa.Call); ok {
+					if cl := core.CommonCallee(c.Common()); cl != nil && calleeKey(cl) == "fmt.Sprintf" {
+						hcall = c
+					}
+				}
+			})
+			if hcall == nil {
+				return
+			}
+			returned := false
+			core.Instrs(outer, func(x ssa.Instruction) {
+				if rt, ok := x.(*ssa.Return); ok && len(rt.Results) == 1 && core.ReturnValues(rt)[0] == ssa.Value(hc) {
+					returned = true
+				}
+			})
+			if !returned {
+				return
+			}
+			for i, a := range hc.Call.Args {
+				if cs, ok := constString(a); ok && i < len(h.Params) {
+					extArg = cs
+				}
+			}
+			call, fn = hcall, h
+		})
+	}
 	if call == nil {
 		core.Undecide("%s: no fmt.Sprintf", core.FuncName(fn))
 	}
@@ -87,11 +129,14 @@ func analysePrinter(p *core.Prog, fn *ssa.Function) *printerInfo {
 	if !ok {
 		core.Undecide("%s: Sprintf format is not constant", core.FuncName(fn))
 	}
+	if extArg != "" && strings.HasSuffix(format, ".%s") {
+		format = strings.TrimSuffix(format, "%s") + extArg
+	}
 	m := fmtShape.FindStringSubmatch(format)
 	if m == nil {
 		core.Undecide("%s: format %q is not of the shape %%0Nd-%%0Nd.ext", core.FuncName(fn), format)
 	}
-	pi := &printerInfo{fn: fn, format: format, widths: []string{m[1], m[2]}, ext: m[3]}
+	pi := &printerInfo{fn: outer, format: format, widths: []string{m[1], m[2]}, ext: m[3]}
 	// variadic args: slice of an alloc'd array; elements stored by index
 	args := make([]ssa.Value, 2)
 	if sl, ok := call.Call.Args[1].(*ssa.Slice); ok {
@@ -438,7 +483,7 @@ func runC10(p *core.Prog, r *core.Report) {
 		below := fn.Params[2]
 		// below == 0 → return nil
 		okZero := false
-		core.Instrs(fn, func(in ssa.Instruction) {
+		core.InstrsDeep(fn, func(in ssa.Instruction) {
 			ifi, ok := in.(*ssa.If)
 			if !ok {
 				return
@@ -482,7 +527,7 @@ func runC10(p *core.Prog, r *core.Report) {
 		// conditions that can prevent the append: collect the If conditions on which the append depends
 		var guards []string
 		okStop := false
-		core.Instrs(cb, func(in ssa.Instruction) {
+		core.InstrsDeep(cb, func(in ssa.Instruction) {
 			ifi, ok := in.(*ssa.If)
 			if !ok {
 				return
@@ -535,8 +580,10 @@ func runC10(p *core.Prog, r *core.Report) {
 		partialF := core.FieldOf(fi, "Partial")
 		ss := p.Named(pkgState, "storeSnapshots")
 		pf, ff := core.FieldOf(ss, "Partials"), core.FieldOf(ss, "FullKVFiles")
-		ok := false
-		core.Instrs(fn, func(in ssa.Instruction) {
+		// every append that feeds the Partials field happens behind the edge on which file.Partial is true, every append
+		// that feeds FullKVFiles behind the edge on which it is false (the lists may be fields or locals assigned later)
+		var tEdges, fEdges []core.Edge
+		core.InstrsDeep(fn, func(in ssa.Instruction) {
 			ifi, isIf := in.(*ssa.If)
 			if !isIf {
 				return
@@ -549,19 +596,63 @@ func runC10(p *core.Prog, r *core.Report) {
 			if neg {
 				tIdx, fIdx = 1, 0
 			}
-			writes := func(b *ssa.BasicBlock, f *types.Var) bool {
-				found := false
-				for _, x := range b.Instrs {
-					if core.IsStoreToField(f)(x) {
-						found = true
+			tEdges = append(tEdges, core.Edge{From: ifi.Block(), Idx: tIdx})
+			fEdges = append(fEdges, core.Edge{From: ifi.Block(), Idx: fIdx})
+		})
+		ok := len(tEdges) > 0
+		for _, side := range []struct {
+			f     *types.Var
+			edges []core.Edge
+		}{{pf, tEdges}, {ff, fEdges}} {
+			nAp := 0
+			for _, member := range core.Family(fn, 1) {
+				for _, w := range core.FieldWritesIn(member, side.f) {
+					if w.Value == nil {
+						continue
+					}
+					// the appends that build the stored list: through phis, the first operand of append, and local cells
+					var aps []*ssa.Call
+					seenV := map[ssa.Value]bool{}
+					var walk func(v ssa.Value)
+					walk = func(v ssa.Value) {
+						if v == nil || seenV[v] {
+							return
+						}
+						seenV[v] = true
+						switch x := v.(type) {
+						case *ssa.Phi:
+							for _, e := range x.Edges {
+								walk(e)
+							}
+						case *ssa.Call:
+							if b, isB := x.Call.Value.(*ssa.Builtin); isB && b.Name() == "append" {
+								aps = append(aps, x)
+								walk(x.Call.Args[0])
+							}
+						case *ssa.UnOp:
+							if al, isAl := x.X.(*ssa.Alloc); isAl {
+								for _, ref := range *al.Referrers() {
+									if st, isSt := ref.(*ssa.Store); isSt && st.Addr == ssa.Value(al) {
+										walk(st.Val)
+									}
+								}
+							}
+						}
+					}
+					walk(w.Value)
+					for _, ap := range aps {
+						nAp++
+						q := core.PathQuery{Fn: ap.Parent(), CutEdge: func(e core.Edge) bool { return containsEdge(side.edges, e) }}
+						if _, reach := q.CanReach(nil, func(x ssa.Instruction) bool { return x == ssa.Instruction(ap) }); reach {
+							ok = false
+						}
 					}
 				}
-				return found
 			}
-			if writes(ifi.Block().Succs[tIdx], pf) && writes(ifi.Block().Succs[fIdx], ff) && !writes(ifi.Block().Succs[tIdx], ff) && !writes(ifi.Block().Succs[fIdx], pf) {
-				ok = true
+			if nAp == 0 {
+				ok = false
 			}
-		})
+		}
 		r.Check(ok, "C10.R3", "listSnapshots/kind", "files with Partial set go to Partials, the others to FullKVFiles", "classification by Partial not found or inverted", p.Pos(fn.Pos()))
 	})
 	r.Guard("C10.R2", "marshallers", "stateless marshallers", func() { checkMarshallersStateless(p, r, "C10.R2") })
